@@ -895,6 +895,25 @@ class Interp:
         it = self.eval(g.iter, env)
         if isinstance(it, Rec) and "__iter__" in it.cls.methods and not it.cls.is_namedtuple:
             it = self.call_method(it, "__iter__", [], {})
+        if isinstance(it, tuple) and it and it[0] == "symzip":
+            # zip of symbolic-length sequences (strict): equal lengths or ValueError; element i is the tuple of the i-th elements
+            seqs, strict = it[1], it[2]
+            if not strict:
+                raise Unsupp("zip of symbolic-length sequences without strict=True")
+            for other in seqs[1:]:
+                if not self.ctx.branch(s_len(other.term) == s_len(seqs[0].term)):
+                    raise RaiseExc("ValueError", n)
+            i = z3.Int(self.ctx.fresh_name("ci"))
+            e2 = dict(env)
+            self.assign(g.target, tuple(self.world.unbox(s_at(sq.term, i), sq.elem) for sq in seqs), e2)
+            self.pure += 1
+            self.ctx.pure_vars.append(i)
+            try:
+                val = self.eval(n.elt, e2)
+            finally:
+                self.pure -= 1
+                self.ctx.pure_vars.pop()
+            return seqs[0], i, val, e2
         if not isinstance(it, SeqV):
             return None
         # a comprehension over a symbolic-length sequence whose body may raise / fork gets a loop contract: key "comp<k>"
@@ -1115,6 +1134,8 @@ class Interp:
             return self.call_closure(f, args, kwargs)
         if isinstance(f, Model):
             return f.vf_call(self, args, kwargs)
+        if isinstance(f, z3.ExprRef) and "call_value" in self.world.extra_builtins:
+            return self.world.extra_builtins["call_value"](self, [f] + list(args), kwargs)
         if isinstance(f, UFunc):
             xs = [real_of(a) for a in args]
             f.calls.append(xs)
@@ -1464,6 +1485,8 @@ class Interp:
         return ("symrange",) + tuple(args)
 
     def b_zip(self, args, kw, node):
+        if args and all(isinstance(a, SeqV) for a in args):
+            return ("symzip", list(args), bool(kw.get("strict")))       # consumed by sym_comp (additive)
         seqs = [self.iter_concrete(a) for a in args]
         if kw.get("strict") and len({len(s) for s in seqs}) > 1:
             raise RaiseExc("ValueError", node)
@@ -1471,6 +1494,8 @@ class Interp:
 
     def b_enumerate(self, args, kw, node):
         start = args[1] if len(args) > 1 else kw.get("start", 0)
+        if isinstance(args[0], SeqV):
+            return ("symenum", args[0], start)          # consumed by sym_for: target = (start + counter, element)
         return PyList([(start + i, x) for i, x in enumerate(self.iter_concrete(args[0]))])
 
     def b_reversed(self, args, kw, node):
@@ -1937,7 +1962,7 @@ class Interp:
         it = self.eval(s.iter, env)
         if isinstance(it, Rec) and "__iter__" in it.cls.methods and not it.cls.is_namedtuple:
             it = self.call_method(it, "__iter__", [], {})
-        if isinstance(it, SeqV) or (isinstance(it, tuple) and it and it[0] == "symrange"):
+        if isinstance(it, SeqV) or (isinstance(it, tuple) and it and it[0] in ("symrange", "symenum")):
             return self.sym_for(s, env, it, ordinal)
         items = self.iter_concrete(it)
         broke = False
@@ -1986,6 +2011,9 @@ class Interp:
         if ls is None:
             raise Unsupp(f"for loop over a symbolic-length iterable at line {s.lineno} needs a loop contract")
         ivar = ivar or f"_i{ordinal}"
+        enum_start = None
+        if isinstance(it, tuple) and it and it[0] == "symenum":
+            enum_start, it = it[2], it[1]
         if isinstance(it, SeqV):
             n = s_len(it.term)
             env[ivar] = 0
@@ -1998,7 +2026,10 @@ class Interp:
                 return s_at(term, i)
 
             def pre(e):
-                self.assign(s.target, self.world.unbox(nth(it.term, to_int_term(e[ivar])), it.elem), e)
+                el = self.world.unbox(nth(it.term, to_int_term(e[ivar])), it.elem)
+                if enum_start is not None:
+                    el = (to_int_term(enum_start) + to_int_term(e[ivar]), el)
+                self.assign(s.target, el, e)
 
             def cond(e):
                 return to_int_term(e[ivar]) < n
